@@ -97,6 +97,73 @@ def m_bytes_range(it, callee, args):
     raise Panic("byte slice index out of range")
 
 
+def m_try_into_array(it, callee, args):
+    """<&[u8] as TryInto<[u8; N]>>::try_into"""
+    v = val(args[0])
+    n = int(re.search(r"\[u8; (\d+)\]", callee).group(1))
+    if it.branch(v.len == z3.BitVecVal(n, 64)):
+        return Agg("enum", "Result", [Agg("array", "[u8]", [v.at(z3.BitVecVal(i, 64)) for i in range(n)])], 0)
+    return Agg("enum", "Result", [Opaque("TryFromSliceError")], 1)
+
+
+def m_from_bytes(it, callee, args):
+    a = val(args[0]); bs = list(a.fields)
+    if "from_le_bytes" in callee: bs = list(reversed(bs))
+    return bs[0] if len(bs) == 1 else z3.Concat(*bs)
+
+
+def m_to_bytes(it, callee, args):
+    x = val(args[0]); n = x.size() // 8
+    bs = [z3.Extract(8 * (n - 1 - i) + 7, 8 * (n - 1 - i), x) for i in range(n)]          # big-endian order
+    if "to_le_bytes" in callee: bs = list(reversed(bs))
+    return Agg("array", "[u8]", bs)
+
+
+def m_copy_from_slice(it, callee, args):
+    d = val(args[0]); s_ = val(args[1])
+    if isinstance(s_, Agg):                         # &[u8; N]
+        if not it.branch(d.len == z3.BitVecVal(len(s_.fields), 64)): raise Panic("copy_from_slice: length mismatch")
+        for i, b in enumerate(s_.fields):
+            d.arr = z3.Store(d.arr, d.off + i, b)
+        return None
+    raise Unsupported(f"copy_from_slice from {s_!r}")
+
+
+class SliceView(ByteVec):
+    """&mut [u8] sub-slice: writes go through to the parent vector's array"""
+    def __init__(self, parent, lo, ln):
+        self.parent = parent; self.lo = lo; self.len = ln
+    @property
+    def arr(self): return self.parent.arr
+    @arr.setter
+    def arr(self, v): self.parent.arr = v
+    @property
+    def off(self): return self.parent.off + self.lo
+    @off.setter
+    def off(self, v): pass
+
+
+def m_bytes_range_mut(it, callee, args):
+    v = val(args[0]); r = val(args[1])
+    if r.name != "Range": raise Unsupported("range kind " + r.name)
+    lo, hi = r.fields[0], r.fields[1]
+    ok = z3.And(z3.ULE(lo, hi), z3.ULE(hi, v.len))
+    if it.branch(ok): return some(SliceView(v, lo, hi - lo)) if "::get_mut" in callee else SliceView(v, lo, hi - lo)
+    if "::get_mut" in callee: return none()
+    raise Panic("byte slice index out of range")
+
+
+def m_bool_then(it, callee, args):
+    c = val(args[0])
+    if it.branch(c if z3.is_bool(c) else c != 0):
+        return some(it.call_closure(args[1], []))
+    return none()
+
+
+def m_closure_call(it, callee, args):
+    return it.call_closure(args[0], list(val(args[1]).fields))
+
+
 def m_index(it, callee, args):
     v = val(args[0]); i = val(args[1])
     if it.branch(z3.ULT(i, v.len)):
@@ -236,6 +303,13 @@ CONTAINER_MODELS = [
     (R(r"<impl \[u8\]>::get::<usize>$|<\[u8\]>::get::<usize>$|<impl \[u8\]>::get_mut::<usize>$|<\[u8\]>::get_mut::<usize>$|Vec::<u8>::get$"), m_slice_get),
     (R(r"<Vec<u8> as (std::ops::)?Index(Mut)?<usize>>::index(_mut)?$|<\[u8\] as (std::ops::)?Index(Mut)?<usize>>::index(_mut)?$"), m_index),
     (R(r"<impl \[u8\]>::get::<std::ops::Range(From|To)?<usize>>$|<\[u8\] as (std::ops::)?Index<std::ops::Range(From|To)?<usize>>>::index$|<Vec<u8> as (std::ops::)?Index<std::ops::Range(From|To)?<usize>>>::index$"), m_bytes_range),
+    (R(r"<&\[u8\] as TryInto<\[u8; \d+\]>>::try_into$"), m_try_into_array),
+    (R(r"<impl u(16|32|64)>::from_(be|le)_bytes$|^u(16|32|64)::from_(be|le)_bytes$"), m_from_bytes),
+    (R(r"<impl u(16|32|64)>::to_(be|le)_bytes$|^u(16|32|64)::to_(be|le)_bytes$"), m_to_bytes),
+    (R(r"<impl \[u8\]>::copy_from_slice$"), m_copy_from_slice),
+    (R(r"<impl \[u8\]>::get_mut::<std::ops::Range<usize>>$|<\[u8\] as (std::ops::)?IndexMut<std::ops::Range<usize>>>::index_mut$|<Vec<u8> as (std::ops::)?IndexMut<std::ops::Range<usize>>>::index_mut$"), m_bytes_range_mut),
+    (R(r"<impl bool>::then::<"), m_bool_then),
+    (R(r"^<\{closure@.*\} as Fn(Mut|Once)?<.*>>::call(_mut|_once)?$"), m_closure_call),
     (R(r"<impl \[u8\]>::to_vec$"), lambda it, c, a: ByteVec(val(a[0]).len, val(a[0]).arr, val(a[0]).off)),
     (R(r"must_use::<"), lambda it, c, a: a[0]),
     (R(r"Box::<.*>::new$"), lambda it, c, a: __import__("mirsym.interp", fromlist=["box"]).box(a[0])),
@@ -244,6 +318,7 @@ CONTAINER_MODELS = [
     (R(r" as Iterator>::collect::<"), m_collect),
     (R(r" as IntoIterator>::into_iter$"), m_into_iter),
     (R(r" as Iterator>::next$"), m_iter_next),
+    (R(r" as Iterator>::try_fold::<"), lambda it, c, a: __import__("mirsym.pycont", fromlist=["m_try_fold"]).m_try_fold(it, c, a)),
     (R(r"BTreeMap::<u64, .*>::get_mut::<u64>$|BTreeMap::<u64, .*>::get::<u64>$"), m_map_get),
     (R(r"BTreeMap::<u64, .*>::contains_key::<u64>$"), m_map_contains),
     (R(r"BTreeMap::<u64, .*>::insert$"), m_map_insert),
